@@ -60,11 +60,10 @@ func runC13(c *Ctx) {
 	// C13.O1: newIter: the flag is rejected for batch/snapshot views before a view is acquired
 	if fn := c.Fn("C13.O1", "p.(*DB).newIter"); fn != nil {
 		fl := NewFlow(c.P).
-			Edge("flag-off", BoolGuard("o.OnlyReadGuaranteedDurable", false)).
-			Edge("flag-off", ZeroGuard("o")).
-			Edge("no-batch", ZeroGuard("batch")).
-			Edge("latest", ZeroGuard("seqNum")).
-			Edge("latest", ZeroGuard("internalOpts.snapshot.seqNum")).
+			Edge("flag-off", BoolGuard("OnlyReadGuaranteedDurable", false)).
+			Edge("flag-off", ZeroGuard(ParamName(fn, 4))).
+			Edge("no-batch", ZeroGuard(ParamName(fn, 2))).
+			Edge("latest", ZeroGuard("snapshot.seqNum")).
 			Derive("flag-compatible", []string{"flag-off"}, []string{"no-batch", "latest"})
 		res := fl.Analyze(fn, emptyState())
 		c.noteFlow(fl)
@@ -92,7 +91,18 @@ func runC13(c *Ctx) {
 		// reusePointIter / reuseRangeKey are defined by && chains: in SSA a phi
 		// whose only non-false incoming value arrives from the block of the last
 		// conjunct. That edge must have established the flag equality.
-		for _, name := range []string{"reusePointIter", "reuseRangeKey"} {
+		reuseNames := []string{}
+		for _, in := range instrs(fn, CallTo("p.(*Iterator).maybeRefreshBatchView")) {
+			for _, a := range in.(*ssa.Call).Common().Args[1:] {
+				if al, ok := a.(*ssa.Alloc); ok {
+					reuseNames = append(reuseNames, al.Comment)
+				}
+			}
+		}
+		if len(reuseNames) != 2 {
+			c.Unresolved("C13.T1", "the two reuse flags passed to maybeRefreshBatchView were not found in SetOptions")
+		}
+		for _, name := range reuseNames {
 			var defs []ssa.Value
 			var poss []token.Pos
 			for _, b := range fn.Blocks {
